@@ -600,9 +600,58 @@ def conditions(prog, fn, bb, unwind=False):
     return out
 
 
-def cond_exprs(prog, fn, bb):
+def hidden_guards(prog, fn, bb):
+    """Switch blocks that guard bb without being on its dominator chain: the switch lies on a path to bb
+    (outside loops, or in a loop that also contains bb), at least one of its arms cannot reach bb, and it
+    does not dominate bb through a single arm. `if a && b { return }` in front of bb and `a || b`
+    around bb are the typical cases: their tests constrain bb but `conditions()` cannot show them as a
+    conjunction. Rules that assert the *exact* condition of a site must see that such a guard exists."""
+    key = ('hidden', bb)
+    r = fn._cache.get(key)
+    if r is not None:
+        return r
+    g = cfg(fn)
+    idom = g.idom()
+    out = []
+    if bb in idom:
+        chain, x = set(), bb
+        while x != 0:
+            x = idom[x]
+            chain.add(x)
+        inloop = fn._cache.get('inloop')
+        if inloop is None:
+            inloop = set()
+            for h in {h for _, h in g.back_edges()}:
+                inloop |= g.loop_blocks(h)
+            fn._cache['inloop'] = inloop
+        reach0 = g.reachable_from(0)
+        for s in range(g.n):
+            b = fn.blocks[s]
+            t = b['term']
+            if t['k'] != 'switch' or b.get('cleanup') or s in chain or s not in reach0:
+                continue
+            if s in inloop and bb not in inloop:
+                continue
+            if not g.reaches(s, bb):
+                continue
+            arms = [x for _, x in t['targets']] + [t['otherwise']]
+            arms = [x for x in arms if fn.blocks[x]['term']['k'] != 'unreachable']
+            if any(not g.reaches(x, bb) for x in arms):
+                out.append(s)
+    fn._cache[key] = out
+    return out
+
+
+def visible(conds):
+    """conditions without the ('hidden', expr) markers of cond_exprs"""
+    return [c for c in conds if not (isinstance(c, tuple) and c and c[0] == 'hidden')]
+
+
+def cond_exprs(prog, fn, bb, hidden=True):
     """Conditions as canonical boolean expressions / (enum expr, variants) pairs, flattened:
-    bool switches yield the expr (negated when bb is on the false arm)."""
+    bool switches yield the expr (negated when bb is on the false arm). For every off-chain guard
+    (hidden_guards) a marker ('hidden', tested expr) is appended, so that an exact match of the
+    conditions fails when an additional compound guard sits in front of the site."""
     res = []
     for c in conditions(prog, fn, bb):
         if c['kind'] == 'bool':
@@ -619,6 +668,13 @@ def cond_exprs(prog, fn, bb):
             res.append(('is', c['expr'], tuple(sorted(labs))))
         else:
             res.append(('switch', c['expr'], tuple(map(str, c['taken']))))
+    if hidden:
+        for s_ in hidden_guards(prog, fn, bb):
+            try:
+                e_ = switch_info(prog, fn, s_)[0]
+            except Exception:
+                e_ = ('unknown', 'switch')
+            res.append(('hidden', e_))
     return res
 
 
